@@ -43,7 +43,7 @@ META = {
                 'shortest@simplifier': 12000, 'perp@simplifier': 12000, 'menger@simplifier': 7500,
                 'hist:clamp_branch': 100000, 'nontrivial': 20000},
     'scale': {'quick': 1, 'thorough': 20},
-    'quick_cases': 16000, 'thorough_cases': 320000,
+    'quick_cases': 16000, 'thorough_cases': 640000,
     'timeout': {'quick': 600, 'thorough': 3000},
     'assumptions': ['np.longdouble has a 64-bit mantissa on this platform (checked at start-up)',
                     'tolerant clauses cannot see errors below 64*eps*(|coords|max + chord length)',
